@@ -53,12 +53,13 @@ FailureAtomic == IsCase /\ last.excs # {""} => last.post = last.pre
 \* under a coercing validator nothing unvalidated is ever stored
 OnlyValidated == vm = "coerce" => \A i \in 1..Len(s) : s[i] \in Valid
 \* multiset conservation: deletions only delete, insertions only insert validated arguments
+SeqElems(q) == {q[i] : i \in 1..Len(q)}
 Count(q, x) == Cardinality({i \in 1..Len(q) : q[i] = x})
 Conservation ==
   IsCase /\ last.op \in {"delitem", "delslice", "pop", "remove", "clear"} =>
-     \A x \in Valid : Count(last.post, x) <= Count(last.pre, x)
+     \A x \in SeqElems(last.pre) \cup SeqElems(last.post) : Count(last.post, x) <= Count(last.pre, x)
 Permutation ==
-  IsCase /\ last.op \in {"reverse", "sort"} => \A x \in Valid : Count(last.post, x) = Count(last.pre, x)
+  IsCase /\ last.op \in {"reverse", "sort"} => \A x \in SeqElems(last.pre) \cup SeqElems(last.post) : Count(last.post, x) = Count(last.pre, x)
 PopReturns == IsCase /\ last.op = "pop" /\ last.excs = {""} =>
      Count(last.pre, last.ret) = Count(last.post, last.ret) + 1
 \* the delta (0, pre, post) always satisfies the law for a successful change: the law is satisfiable
